@@ -191,15 +191,24 @@ numerical_enum! {
 }
 
 impl Qcow2RawHeader {
+    /// Version 2 header ends at byte 72, where its header extensions start
+    fn serialized_len(&self) -> usize {
+        if self.version == 2 {
+            72
+        } else {
+            size_of::<Self>().align_up(8usize).unwrap()
+        }
+    }
+
     pub fn serialize_vec(&mut self) -> Qcow2Result<Vec<u8>> {
-        self.header_length = size_of::<Self>().align_up(8usize).unwrap().try_into()?;
+        self.header_length = self.serialized_len().try_into()?;
 
         let bincode = bincode::DefaultOptions::new()
             .with_fixint_encoding()
             .with_big_endian();
 
         let mut header_buf = bincode.serialize(self)?;
-        header_buf.resize(header_buf.len().align_up(8usize).unwrap(), 0);
+        header_buf.resize(self.serialized_len(), 0);
 
         assert!(header_buf.len() == self.header_length as usize);
 
@@ -530,7 +539,7 @@ impl Qcow2Header {
     }
 
     pub fn serialize_to_buf(&mut self) -> Qcow2Result<Vec<u8>> {
-        let header_len = size_of::<Qcow2RawHeader>().align_up(8usize).unwrap();
+        let header_len = self.raw.serialized_len();
         let mut header_exts = self.serialize_extensions()?;
 
         if let Some(backing) = self.backing_filename.as_ref() {
